@@ -29,7 +29,7 @@ def crosscheck(mods, trials=20, filt="", props=None):
             try:
                 job.body(c, O)
             except PathEnd:
-                continue
+                pass                         # precondition not met (or a clause failed and ended the path: counted below)
             except Exception as e:          # noqa: BLE001
                 fails[(jid, f"EXCEPTION {type(e).__name__}")] += 1
                 examples.setdefault((jid, f"EXCEPTION {type(e).__name__}"), (str(e)[:200], dict(c.used)))
